@@ -1,10 +1,10 @@
 SPECIFICATION Spec
 CONSTANTS
-  Transport = "tls"
+  Transport = "quic"
   ResidueAfterFailure = FALSE
   ShortCookieRead = FALSE
   DialResetsData = TRUE
-  Alpns <- AlpnsTls
+  Alpns <- AlpnsQuic
   Alphabet <- AlphaCore
   CutRecs <- CutCore
   MaxRecs = 4
@@ -13,6 +13,6 @@ CONSTANTS
   MaxStore = 1
   CtxMode = "returns"
   MaxStalls = 1
-  StaleNextHop = FALSE
-INVARIANTS TypeOK SuccessOnlyIf KeysAgree PoolIsIssued PoolReturned Destination NoResidue NoResidueState
+  StaleNextHop = TRUE
+INVARIANTS TypeOK SuccessOnlyIf KeysAgree PoolIsIssued PoolReturned Destination NoResidue
 PROPERTIES IgnoresNonCritical
